@@ -137,6 +137,15 @@ def hostile(rng, y, cls, real=False):
             c = (rng.standard_normal((N, d)) if real else cnormal(rng, (N, d)))
             y[idx] = (c @ B).astype(y.dtype)
         return y
+    if cls == 'outlier':
+        # one or two observations per slice tens to hundreds of standard deviations away from everything else: their log-densities
+        # lie hundreds of nats below those of the other observations of the slice (not below those of the other classes)
+        sd = float(np.std(y.real)) or 1.0
+        for idx in np.ndindex(*y.shape[:-2]):
+            for n in rng.permutation(N)[:int(rng.integers(1, 3))]:
+                v = rng.standard_normal(D) if real else cnormal(rng, (D,))
+                y[idx][n] = y[idx][n] + (float(rng.choice([40, 80, 200, 500])) * sd * v / np.linalg.norm(v)).astype(y.dtype)
+        return y
     raise ValueError(cls)
 
 
